@@ -123,7 +123,13 @@ func c06R1(c *Ctx, r *Report, rule string) {
 						m := ci.Common().Method.Name()
 						if m == "Read" {
 							nReads++
-							r.check(allowedRead[name], rule, name, fmt.Sprintf("raw Read#%d", nReads), c.ipos(ref), "raw read inside the Connection's own read path", "the raw connection is read outside Connection.Read/prefetch: bytes bypass the matching buffer (lost for rewind, read from the network while matching)")
+							allowed := false
+							for _, h := range c.homeChain(fn) { // an unexported helper called only from Read/prefetch is part of that read path
+								if allowedRead[fname(h)] {
+									allowed = true
+								}
+							}
+							r.check(allowed, rule, name, fmt.Sprintf("raw Read#%d", nReads), c.ipos(ref), "raw read inside the Connection's own read path", "the raw connection is read outside Connection.Read/prefetch: bytes bypass the matching buffer (lost for rewind, read from the network while matching)")
 							continue
 						}
 						if mreach[fn] && m != "LocalAddr" && m != "RemoteAddr" && !strings.HasPrefix(name, "layer4.(*Connection)") {
